@@ -42,6 +42,11 @@ HAZ = [('section_lb', 'resolve0'), ('partial_range', 'resolve0'), ('modified_ope
        ('section_lb', 'resolve1'), ('modified_operand', 'trafo'), ('merge_expr_selector', 'merge'), ('merge_all_moved', 'merge'), ('merge_then_resolve', 'trafo')]
 
 
+def setup_worker(tier, ctx):
+    from loki import config
+    config['log-level'] = 'ERROR'
+
+
 def plan(idx, rng):
     hazard = None
     if idx % 4 == 3:
